@@ -173,6 +173,7 @@ int flush_pubsub_msgs(void *data, const char *key, void *value) {
     ps_priv_t *mm = NULL;
 
     const bool stopping_mod = key == NULL;
+    bool pilled = false;
     
     m_queue_t *flushed = m_queue_new(mem_dtor);
     if (!flushed) {
@@ -187,6 +188,12 @@ int flush_pubsub_msgs(void *data, const char *key, void *value) {
          * Else, just free msg.
          */
         if (!stopping_mod && m_mod_is(mod, M_MOD_RUNNING)) {
+            if (mm->msg.system && mm->msg.topic && !strcmp(mm->msg.topic, M_PS_MOD_POISONPILL)) {
+                /* Deliver what was sent before the pill, then stop the module: what was sent after it gets destroyed */
+                pilled = true;
+                m_mem_unref(mm);
+                break;
+            }
             M_DEBUG("Flushing enqueued pubsub message for module '%s'.\n", mod->name);
             evt_priv_t *msg = new_evt(mm->sub);
             if (msg && flushed) {
@@ -198,7 +205,12 @@ int flush_pubsub_msgs(void *data, const char *key, void *value) {
         M_DEBUG("Destroying enqueued pubsub message for module '%s'.\n", mod->name);
         m_mem_unref(mm);
     }
-    call_pubsub_cb(mod, flushed);
+    M_MEM_LOCK(mod, {
+        call_pubsub_cb(mod, flushed);
+        if (pilled && m_mod_is(mod, M_MOD_RUNNING | M_MOD_PAUSED)) {
+            stop(mod, true);
+        }
+    });
     
     /* 
      * If we are stopping the ctx loop,
